@@ -133,9 +133,17 @@ Event ==
                      ELSE TRUE
   /\ l' = l + 1 /\ UNCHANGED <<cur, skip, done>>
 
+\* (callers) a global operation (Server.merge) that was started while an index job held its repository
+\* lock: mutual exclusion means it worked on the directory as the job left it -- the shards it handed
+\* to the merge command (saw) are the candidates of that directory (want, computed afterwards with
+\* the same selection functions); a view taken before the lock was held is a stale one
+Caller == /\ l <= Len(Trace) /\ Trace[l].ev = "caller"
+          /\ (Trace[l].saw # Trace[l].want => Reject("stale-view", 0, [want |-> Trace[l].want]))
+          /\ l' = l + 1 /\ UNCHANGED <<cur, skip, done, active, open, lastEnd, lastSeq>>
+
 Done == l = Len(Trace) + 1 /\ ~done /\ done' = TRUE /\ PrintT(<<"ACCEPTED", l - 1>>)
         /\ UNCHANGED <<l, cur, skip, active, open, lastEnd, lastSeq>>
 
-Next == Reset \/ Note \/ Skip \/ Step \/ Event \/ Done
+Next == Reset \/ Note \/ Skip \/ Step \/ Event \/ Caller \/ Done
 Spec == Init /\ [][Next]_vars
 =============================================================================
